@@ -291,4 +291,30 @@ func c18(c *ctx) {
 			r.Check(n >= 1, "R6/handlePacket/delivers", c.p.Pos(handlePacket.Pos()), "handlePacket builds the delivered message", "no MessageAndMetadata is built in handlePacket any more (rule needs re-reading)")
 		}
 	}
+
+	// ------------------------------------------------------------------ R7
+	r.Rule("R7", "PATH", "a peer is registered under the key it proved: on every path of AddPeer that reaches PeerSet.Add / AddForce, the registered PeerInfo's Address.PublicKey has been set from the connection's handshake-authenticated key (whatever key the peer was dialled under)", 1)
+	addPeer := c.fn("p2p.(*P2P).AddPeer")
+	psAdd, psAddForce := c.fn("p2p.(*PeerSet).Add"), c.fnQuiet("p2p.(*PeerSet).AddForce")
+	pkF := c.p.Field("lib", "PeerAddress", "PublicKey")
+	if addPeer != nil && psAdd != nil && r.Anchor(pkF != nil, "lib.PeerAddress.PublicKey") {
+		regs := []*ssa.Function{psAdd}
+		if psAddForce != nil {
+			regs = append(regs, psAddForce)
+		}
+		c.mpt(mptSpec{
+			rule: "R7", fn: addPeer, events: evSet{},
+			extraEv: func(in ssa.Instruction) string {
+				if fv, _, val := storeField(in); fv != nil && fv == pkF {
+					if pth := c.p.path(val); strings.Contains(pth, "NewConnection(") && strings.HasSuffix(pth, ".Address.PublicKey") {
+						return "authKeySet"
+					}
+				}
+				return ""
+			},
+			target:    tgtCall("register", regs...),
+			reqs:      func(string) []string { return []string{"seen:authKeySet"} },
+			minTarget: 1,
+		})
+	}
 }
